@@ -105,7 +105,7 @@ func gapSeqs(w *eng.W, leg string, alpha []string, gaps []string, k int, f func(
 }
 
 // RawBytes: bytes chosen so that every scanner branch is reachable.
-var RawBytes = []string{"a", "1", "0", "x", "e", "_", ".", "'", "\"", "\\", "!", "=", "(", ",", " ", "\n", "\r", "\xC2", "\x85", "\xE4", "\xFF"}
+var RawBytes = []string{"a", "1", "0", "x", "e", "_", ".", "'", "\"", "\\", "!", "=", "(", ",", " ", "\n", "\r", "\xC2", "\x85", "\xE4", "\xFF", "\x00"}
 
 func byteStrings(w *eng.W, leg string, n int, f func(leg string, src []byte)) {
 	for l := 0; l <= n; l++ {
